@@ -609,6 +609,36 @@ func genC05(tier string, rng *Rng) []Case {
 		}
 		out = append(out, mkCacheCase([]Rule{rule}, g.ops, nil))
 	}
+	// a resource that starts to vary by Origin: stored once for everybody, expired, and refreshed by a request with an
+	// Origin whose answer now says Vary: Origin - the refresh moves the entry to that Origin's key
+	for i := 0; i < n/10+1; i++ {
+		g := &histGen{rng: rng}
+		mk := func(body string, vary bool) Behaviour {
+			h := []KV{{"Content-Type", "text/plain"}, {"Content-Length", fmt.Sprint(len(body))}, {"Cache-Control", "max-age=10"}}
+			if vary {
+				h = append(h, KV{"Vary", "Origin"})
+			}
+			return Behaviour{Status: 200, Hdrs: h, Body: body}
+		}
+		oa, ob := KV{"Origin", "https://a.example"}, KV{"Origin", "https://b.example"}
+		g.script(mk("for everybody", false))
+		g.req("GET", "/c/x", oa)
+		g.req("GET", "/c/x", ob)
+		g.adv(100)
+		g.script(mk("for a.example", true))
+		g.req("GET", "/c/x", oa)
+		if rng.Bool() {
+			g.req("GET", "/c/x", oa)
+		}
+		g.script(mk("for b.example", true))
+		g.req("GET", "/c/x", ob)
+		g.req("GET", "/c/x", oa)
+		g.req("GET", "/c/x", ob)
+		if rng.Bool() {
+			g.req("GET", "/c/x")
+		}
+		out = append(out, mkCacheCase([]Rule{cacheRule()}, g.ops, nil))
+	}
 	// requests rrrouter must answer by itself
 	hosts := []string{"[abc", "[", "a:b:c", "%zz", "h1:x", "]", "client.test"}
 	for i := 0; i < n/5; i++ {
@@ -799,6 +829,21 @@ func genC11Hist(tier string, rng *Rng) []Case {
 	resp := func(tag string) []Behaviour {
 		body := "generated-for-" + tag
 		return []Behaviour{{Status: 200, Hdrs: []KV{{"Content-Type", "text/plain"}, {"Content-Length", fmt.Sprint(len(body))}, {"Cache-Control", "max-age=600"}}, Body: body}}
+	}
+	// the origin's answer depends on the URL it is asked for, query included; rules with and without $1 in the destination:
+	// requests that differ only in the query are different resources
+	for i := 0; i < n/3+2; i++ {
+		g := &histGen{rng: rng}
+		rules := []Rule{
+			{Enabled: true, Path: "/fixed/*", Dest: "http://origin.test/landing", Type: 1, Cache: "c1"},
+			{Enabled: true, Path: "/q/*", Dest: "http://origin.test/base/$1", Type: 1, Cache: "c1"},
+		}
+		g.ops = append(g.ops, Op{Kind: "script", Script: []HostScript{{"origin.test", []Behaviour{{Status: 200,
+			Hdrs: []KV{{"Content-Type", "text/plain"}, {"Cache-Control", "max-age=600"}}, Body: echoBody}}}}})
+		for k := 4 + rng.Intn(4); k > 0; k-- {
+			g.req("GET", rng.Pick([]string{"/fixed/a", "/q/a"})+rng.Pick([]string{"", "?x=1", "?x=2", "?x=1&y=2"}))
+		}
+		out = append(out, mkCacheCase(rules, g.ops, nil))
 	}
 	for i := 0; i < n; i++ {
 		g := &histGen{rng: rng}
